@@ -57,6 +57,60 @@ CELL['view'] = 'view_options'
 ACTIONS = {'timeit': ['end', 'status'], 'contextual_override': ['wrapped_probe']}
 
 
+# managers that are entered through a manager OBJECT (created at one point, entered at another)
+OBJECT_MANAGERS = [m for m in DRIVEN if m not in ('Functor.__call__', 'view')]
+# entries that fail: (manager, how) -> exception class the library raises
+FAIL_ENTRY = {
+    ('detour', 'unpatchable'): 'TypeError',          # __new__ of a builtin source class cannot be replaced
+    ('detour', 'baddest'): 'TypeError',              # destination neither class nor function
+    ('apply_wrappers', 'notwrapper'): 'AttributeError',
+    ('load_types_for_deserialization', 'badtype'): 'AttributeError',
+    ('dynamic_evaluate', 'notcallable'): 'ValueError',
+    ('view', 'noview'): 'ValueError',                # fails inside the view_options block of pg.view
+    ('Functor.__call__', 'extra'): 'TypeError',
+}
+
+
+def make_table(case):
+  """id -> (manager, arg) of every `make` node of the case (ids are unique per case)."""
+  t = {}
+  for prog in case['threads']:
+    for n in walk(prog):
+      if n[0] == 'make':
+        t[n[1]] = (n[2], n[3])
+  return t
+
+
+def lower(p, table):
+  """The program in the core grammar of the model: creating a manager object does nothing, entering
+  it is a scope opened where it is ENTERED; a failing entry changes nothing and raises."""
+  op = p[0]
+  if op == 'make':
+    return ['skip']
+  if op == 'enter':
+    m, arg = table[p[1]]
+    if len(p) > 3 and p[3] == 'again' and m != 'timeit':
+      return ['fail', 'RuntimeError']        # an exhausted @contextmanager object: "generator didn't yield"
+    return ['scope', m, arg, lower(p[2], table)]
+  if op == 'stack':
+    body = lower(p[2], table)
+    for i in reversed(p[1]):
+      m, arg = table[i]
+      body = ['scope', m, arg, body]
+    return body
+  if op == 'failenter':
+    return ['fail', FAIL_ENTRY[(p[1], p[2])]]
+  if op == 'seq':
+    return ['seq', lower(p[1], table), lower(p[2], table)]
+  if op == 'try':
+    return ['try', lower(p[1], table)]
+  if op == 'scope':
+    return ['scope', p[1], p[2], lower(p[3], table)]
+  if op == 'call':
+    return ['call', p[1], p[2], lower(p[3], table)]
+  return p
+
+
 class UserError(Exception):
   pass
 
@@ -195,6 +249,7 @@ class Lib:
 
     self.Probe = Probe
     self.overrides = {}
+    self.objects = {}          # manager objects of the running case: id -> (manager, arg, object)
 
     class CtxObj(pg.ContextualObject):
       x: int = SENTINEL
@@ -562,8 +617,46 @@ class Runner:
         self.lib.tls.call_stack.pop()
         rec['after'] = self.snapshot()
       return
-    if op == 'scope':
-      name, arg, body = p[1], p[2], p[3]
+    if op == 'make':
+      # a manager object created here, entered elsewhere (maybe by another thread)
+      m, arg = p[2], p[3]
+      self.lib.objects[p[1]] = (m, arg, self.lib.pg.timeit(arg['a']) if m == 'timeit' else self.lib.enter(m, arg))
+      return
+    if op == 'stack':
+      import contextlib
+      rec = {'mgr': 'stack', 'arg': {'ids': p[1]}, 'before': self.snapshot(), 'entered': False}
+      self.blocks.append(rec)
+      try:
+        with contextlib.ExitStack() as st:
+          for i in p[1]:
+            st.enter_context(self.lib.objects[i][2])
+          self.run(p[2])
+        rec['exit'] = 'normal'
+      except BaseException as e:
+        rec['exit'] = 'exc:' + type(e).__name__
+        raise
+      finally:
+        rec['after'] = self.snapshot()
+      return
+    if op == 'failenter':
+      rec = {'mgr': 'failenter', 'arg': {'m': p[1], 'how': p[2]}, 'before': self.snapshot(), 'entered': False}
+      self.blocks.append(rec)
+      try:
+        self.fail_entry(p[1], p[2])
+        self.obs.append(['failenter', 'entry did not fail', None])
+        rec['exit'] = 'normal'
+      except BaseException as e:
+        rec['exit'] = 'exc:' + type(e).__name__
+        raise
+      finally:
+        rec['after'] = self.snapshot()
+      return
+    if op in ('scope', 'enter'):
+      if op == 'enter':
+        name, arg, given = self.lib.objects[p[1]]
+        body = p[2]
+      else:
+        name, arg, body, given = p[1], p[2], p[3], None
       before = self.snapshot()
       rec = {'mgr': name, 'arg': arg, 'before': before, 'entered': False,
              'enclosing': [[m, a] for m, a in self.depth_stack]}
@@ -591,7 +684,7 @@ class Runner:
           finally:
             lib.tls.body = prev
         elif name == 'timeit':
-          cm = self.lib.enter(name, arg)
+          cm = given if given is not None else self.lib.enter(name, arg)
           self.lib.tls.timeit_active.append(cm)
           rec['timeit_index'] = len(self.blocks) - 1
           rec['timeit_parent'] = self.timeit_blocks[-1] if self.timeit_blocks else None
@@ -609,7 +702,7 @@ class Runner:
             except RecursionError:
               rec['status_keys'] = None
         else:
-          with self.lib.enter(name, arg):
+          with (given if given is not None else self.lib.enter(name, arg)):
             rec['entered'] = True
             rec['inside'] = self.lib.get(name)
             self.run(body)
@@ -650,6 +743,35 @@ def _act(self, name, action):
 
 
 Runner.act = _act
+
+
+def _fail_entry(self, m, how):
+  """Entries the library rejects. Nothing may have changed afterwards."""
+  lib, pg = self.lib, self.lib.pg
+  if (m, how) == ('detour', 'unpatchable'):
+    with pg.detour([(int, lib.classes['B'])]):
+      self.obs.append(['failenter', 'entered', None])
+  elif (m, how) == ('detour', 'baddest'):
+    with pg.detour([(lib.classes['A'], 5)]):
+      self.obs.append(['failenter', 'entered', None])
+  elif (m, how) == ('apply_wrappers', 'notwrapper'):
+    with pg.apply_wrappers([lib.classes['A']]):
+      self.obs.append(['failenter', 'entered', None])
+  elif (m, how) == ('load_types_for_deserialization', 'badtype'):
+    with pg.JSONConvertible.load_types_for_deserialization(5):
+      self.obs.append(['failenter', 'entered', None])
+  elif (m, how) == ('dynamic_evaluate', 'notcallable'):
+    with lib.hyper.dynamic_evaluate(5):
+      self.obs.append(['failenter', 'entered', None])
+  elif (m, how) == ('view', 'noview'):
+    pg.view(object(), view_id='no-such-view', o1=1, o2=[1])
+  elif (m, how) == ('Functor.__call__', 'extra'):
+    lib.tls.functor(1, 2, 3)
+  else:
+    raise AssertionError((m, how))
+
+
+Runner.fail_entry = _fail_entry
 
 
 def run_threads(lib, case, managers):
@@ -992,6 +1114,66 @@ def fn_family(rng, n):
       yield {'threads': [one()]}
 
 
+def created_entered_family(rng):
+  """A manager object created at one point and entered at another, for every manager with an object
+  form: created outside / inside another scope of the same manager, entered later, after the creating
+  scope ended, by another thread, through an ExitStack list, and entered a second time.  Creating an
+  object must capture nothing: what counts is where it is entered."""
+  n = [0]
+
+  def fresh():
+    n[0] += 1
+    return 'o%d' % n[0]
+  for m in OBJECT_MANAGERS:
+    def arg():
+      a = gen_arg(rng, m)
+      if m == 'dynamic_evaluate':
+        a['pt'] = True
+      return a
+    pr = ['probe', m]
+    # created outside, entered inside another scope of the same manager
+    i = fresh()
+    yield {'threads': [['seq', ['make', i, m, arg()], ['seq', ['scope', m, arg(), ['seq', pr, ['seq', ['enter', i, pr], pr]]], pr]]]}
+    # created inside a scope, entered after that scope ended (normally / by an exception)
+    i = fresh()
+    inner = ['seq', ['make', i, m, arg()], ['seq', pr, ['raise'] if rng.chance(0.4) else ['skip']]]
+    yield {'threads': [['seq', ['try', ['scope', m, arg(), inner]], ['seq', pr, ['seq', ['enter', i, pr], pr]]]]}
+    # a pre-built list entered through ExitStack inside a scope; and built inside, entered outside
+    i, j = fresh(), fresh()
+    yield {'threads': [['seq', ['make', i, m, arg()], ['seq', ['make', j, m, arg()],
+                        ['seq', ['scope', m, arg(), ['seq', ['stack', [i, j], pr], pr]], pr]]]]}
+    i, j = fresh(), fresh()
+    yield {'threads': [['seq', ['scope', m, arg(), ['seq', ['make', i, m, arg()], ['seq', ['make', j, m, arg()], pr]]],
+                        ['seq', ['stack', [i, j], ['seq', pr, ['raise'] if rng.chance(0.3) else ['skip']]], pr]]]}
+    # entered a second time (an exhausted @contextmanager object refuses; a TimeIt can be used again)
+    i = fresh()
+    again = ['seq', ['make', i, m, arg()], ['seq', ['enter', i, pr], ['seq', ['try', ['enter', i, pr, 'again']], pr]]]
+    yield {'threads': [again]}
+    yield {'threads': [['scope', m, arg(), ['seq', pr, ['seq', again, pr]]]]}
+    # created inside thread 0's scope, entered by thread 1
+    if m not in PROCESS_WIDE:
+      i = fresh()
+      a = ['seq', ['scope', m, arg(), ['seq', ['make', i, m, arg()], ['seq', ['sync'], pr]]], pr]
+      b = ['seq', pr, ['seq', ['enter', i, ['seq', pr, ['sync']]], pr]]
+      yield {'threads': [a, b]}
+
+
+def fail_entry_family(rng):
+  """Entries that fail, on their own and inside scopes of the same and of other managers: nothing may
+  change, least of all the enclosing scope."""
+  for (m, how) in sorted(FAIL_ENTRY):
+    pr = ['probe', 'view_options' if m == 'view' else m]
+    f = ['try', ['failenter', m, how]]
+    yield {'threads': [['seq', f, pr]]}
+    for _ in range(2):
+      a = gen_arg(rng, m)
+      yield {'threads': [['seq', ['scope', m, a, ['seq', pr, ['seq', f, pr]]], pr]]}
+      o = rng.choice(DRIVEN)
+      yield {'threads': [['seq', ['scope', o, gen_arg(rng, o), ['scope', m, a, ['seq', f, ['seq', pr, ['probe', o]]]]], pr]]}
+    # not caught inside: the failing entry unwinds the enclosing scopes
+    yield {'threads': [['seq', ['try', ['scope', m, gen_arg(rng, m), ['seq', pr, ['failenter', m, how]]]], pr]]}
+
+
 def size(p):
   return 1 + sum(size(x) for x in p[1:] if isinstance(x, list))
 
@@ -1029,7 +1211,11 @@ class C17(Prop):
   translators = [t_c17.run]
   case_timeout_s = 40
   jobs_quick = 6
-  rule = ('ROUND 4 additions: call = creating an object inside a detour, a destination FUNCTION runs a sub-program '
+  rule = ('ROUND 5 additions: make/enter/stack = a manager OBJECT created at one point and entered at another '
+          '(outside / inside another scope of the same manager, after the creating scope ended, by another thread, '
+          'as an ExitStack list, a second time) for all 20 managers with an object form; failenter = an entry the '
+          'library rejects (7 kinds + exhausted @contextmanager objects), alone and inside scopes of the same and '
+          'other managers. ROUND 4 additions: call = creating an object inside a detour, a destination FUNCTION runs a sub-program '
           '(returns, raises, creates the class again, opens nested detours); falsy family: for every manager a '
           'None/False/0/empty setting nested under and next to truthy ones while a second thread holds a truthy '
           '(dynamic evaluation: process-wide) setting, deterministic hand-offs; ContextualObject.override on one '
@@ -1111,6 +1297,9 @@ class C17(Prop):
       yield {'threads': [a, ['seq', ['sync'], b]]}
     yield from falsy_family(rng, 1 if tier == 'quick' else 8)
     yield from fn_family(rng, n_two // 2)
+    for _ in range(1 if tier == 'quick' else 6):
+      yield from created_entered_family(rng)
+      yield from fail_entry_family(rng)
     if tier == 'thorough':
       yield from self.exhaustive_pairs(rng)
 
@@ -1171,6 +1360,7 @@ class C17(Prop):
   def impl_inproc(self, case):
     lib = self.lib()
     lib.reset_process_state()
+    lib.objects.clear()
     results, late = run_threads(lib, case, DRIVEN)
     for r in results:
       if r is None:
@@ -1182,7 +1372,8 @@ class C17(Prop):
     return {'model': model, 'blocks': [r['blocks'] for r in results], 'late': late}
 
   def model_request(self, case):
-    return {'op': 'run', 'threads': case['threads']}
+    table = make_table(case)
+    return {'op': 'run', 'threads': [lower(p, table) for p in case['threads']]}
 
   @staticmethod
   def _canon_model(mo):
@@ -1235,13 +1426,15 @@ class C17(Prop):
           continue
         diff = sorted(k for k in b['before'] if b['before'][k] != b['after'].get(k) and k not in shared(tid))
         if diff:
-          own = b['mgr'] in diff or (b['mgr'] == 'call' and 'detour' in diff)
+          own = b['mgr'] in diff or (b['mgr'] == 'call' and 'detour' in diff) or b['mgr'] in ('failenter', 'stack')
           failing.append((0 if own else 1, len(failing), tid, b, diff))
     if failing:
       own, _, tid, b, diff = min(failing, key=lambda x: (x[0], x[1]))
       m = b['mgr']
       how = 'exception' if str(b.get('exit', '')).startswith('exc') else 'normal'
       sig = 'not-restored:%s:%s' % (m, how) if own == 0 else 'not-restored-other:' + ','.join(diff)
+      if m == 'failenter':
+        sig = 'not-restored:failenter:' + b['arg']['m']
       return {'signature': sig,
               'what': 'thread %d: after leaving `with %s(%s)` (%s exit) the getters %s differ: before=%s after=%s'
                       % (tid, m, json.dumps(b['arg']), how, diff,
@@ -1302,7 +1495,7 @@ class C17(Prop):
     if two:
       # isolation: every probe of a thread must be explained by that thread's own enclosing scopes.
       for tid, prog in enumerate(case['threads']):
-        exp = self.expected_probes(prog, out['model']['threads'][tid]['before'], shared(tid))
+        exp = self.expected_probes(lower(prog, make_table(case)), out['model']['threads'][tid]['before'], shared(tid))
         got = out['model']['threads'][tid]['obs']
         for (name, want), g in zip(exp, got):
           if want is not None and g[0] == name and g[1] != want[1]:
@@ -1340,7 +1533,7 @@ class C17(Prop):
       if op == 'seq':
         go(p[1], env)
         go(p[2], env)
-      elif op == 'raise':
+      elif op in ('raise', 'fail'):
         raise Stop()
       elif op == 'try':
         try:
@@ -1363,7 +1556,9 @@ class C17(Prop):
     return out
 
   def nontrivial(self, case, out):
+    table = make_table(case)
     for prog in case['threads']:
+      prog = lower(prog, table)
       scoped = {n[1] for n in walk(prog) if n[0] == 'scope'}
       probed = {n[1] for n in walk(prog) if n[0] == 'probe'}
       if scoped & probed:
@@ -1382,6 +1577,8 @@ class C17(Prop):
           h.append('scope:' + n[1])
         if n[0] == 'call':
           h.append('call')
+        if n[0] in ('make', 'enter', 'stack', 'failenter'):
+          h.append(n[0])
       if any(n[0] == 'raise' for n in walk(prog)):
         h.append('has-raise')
     for t in out.get('model', {}).get('threads', []):
@@ -1423,6 +1620,17 @@ class C17(Prop):
       yield p[3]
       for c in self._shrink_prog(p[3]):
         yield ['scope', p[1], p[2], c]
+    elif op == 'enter':
+      for c in self._shrink_prog(p[2]):
+        yield ['enter', p[1], c] + p[3:]
+    elif op == 'stack':
+      for c in self._shrink_prog(p[2]):
+        yield ['stack', p[1], c]
+      if len(p[1]) > 1:
+        yield ['stack', p[1][1:], p[2]]
+        yield ['stack', p[1][:-1], p[2]]
+    elif op == 'failenter':
+      yield ['skip']
     elif op == 'call':
       yield p[3]
       yield ['skip']
